@@ -146,6 +146,113 @@ def gen_training(rng, kind=None):
             "encoding": encoding}
 
 
+# ---------------------------------------------------------------- a ruleset name that is trained more than once
+
+RETRAIN_VARIANTS = ["ngram", "ngram", "ngram", "alphabet_size", "encoding", "list", "everything", "same", "same_characters",
+                    "same_characters"]
+NGRAM_PAIRS = [(4, 5), (3, 4), (5, 4), (2, 3), (3, 2), (4, 3), (5, 3), (2, 4)]
+
+
+def _other_encodings(cfg):
+    out = []
+    for e in ("utf-8", "latin-1", "cp1251"):
+        if e == cfg["encoding"] or (e, cfg["encoding"]) in (("latin-1", "iso-8859-1"),):
+            continue
+        try:
+            for p in cfg["passwords"]:
+                p.encode(e)
+        except (UnicodeEncodeError, UnicodeDecodeError):
+            continue
+        out.append(e)
+    return out
+
+
+def gen_retraining(rng, kind=None, cli=False, variant=None):
+    """A HISTORY of trainings onto one ruleset name: {"steps": [cfg, ..., target cfg], "variants": [...]}.
+    The last step is the ruleset under test; the earlier ones are what the directory held before: the same list with
+    another n-gram size (4 then 5, 3 then 4, ...), another alphabet size, another encoding, another list, the same
+    characters in other passwords (same settings and usually the same learned alphabet), everything different, or exactly
+    the same training again.  cli: only what trainer.py has an option for (max_len stays 21)."""
+    target = gen_training(rng, kind)
+    if cli:
+        target = dict(target, max_len=21)
+        target.pop("counts", None)
+    n_prev = 2 if rng.random() < 0.25 else 1
+    steps, variants = [target], []
+    for _ in range(n_prev):
+        cur = steps[0]
+        v = rng.choice(RETRAIN_VARIANTS)
+        if variant is not None and len(steps) == 1:
+            v = variant                 # (the draw above is kept: the same stream of random numbers either way)
+        if v == "encoding" and not _other_encodings(cur):
+            v = "ngram"
+        if v == "ngram":
+            if len(steps) == 1:
+                n1, n2 = rng.choice(NGRAM_PAIRS)
+                cur = dict(cur, ngram=n2, max_len=max(cur["max_len"], n2))
+                steps[0] = cur
+            else:
+                n1 = rng.choice([n for n in (2, 3, 4, 5) if n != cur["ngram"]])
+            prev = dict(cur, ngram=n1, max_len=max(cur["max_len"], n1))
+        elif v == "alphabet_size":
+            prev = dict(cur, alphabet_size=rng.choice([a for a in (1, 2, 3, 5, 8, 30, 100) if a != cur["alphabet_size"]]))
+        elif v == "encoding":
+            prev = dict(cur, encoding=rng.choice(_other_encodings(cur)))
+        elif v == "list":
+            other = gen_training(rng, rng.choice(["mixed", "long", "dup_heavy", "single_len", "len_eq_ngram"]))
+            prev = dict(cur, passwords=other["passwords"])
+            prev.pop("counts", None)
+            if any(_unencodable(p, cur["encoding"]) for p in prev["passwords"]):
+                prev["encoding"] = "utf-8"
+        elif v == "same_characters":
+            # an "updated version of the same list": the same characters with the same counts (every password but the first
+            # reversed or rotated), so that the settings AND the learned alphabet can stay what they were while the tables change
+            k = rng.choice([0, 1, 2])
+            pws = cur["passwords"]
+            prev = dict(cur, passwords=pws[:1] + [(p[::-1] if k == 0 else p[k:] + p[:k]) for p in pws[1:]])
+        elif v == "everything":
+            prev = gen_training(rng, None)
+            if cli:
+                prev = dict(prev, max_len=21)
+                prev.pop("counts", None)
+        else:
+            prev = dict(cur)
+        steps.insert(0, prev)
+        variants.insert(0, v)
+    return {"steps": steps, "variants": variants}
+
+
+def _unencodable(p, enc):
+    try:
+        p.encode(enc)
+        return False
+    except (UnicodeEncodeError, UnicodeDecodeError):
+        return True
+
+
+def omen_files(d):
+    """name -> bytes of the files in an Omen directory"""
+    out = {}
+    if os.path.isdir(d):
+        for fn in sorted(os.listdir(d)):
+            p = os.path.join(d, fn)
+            if os.path.isfile(p):
+                out[fn] = open(p, "rb").read()
+    return out
+
+
+def session_on(T, seconds=0.2):
+    """What a guessing / scoring session on the ruleset does between two trainings: the real guesser loader and one small
+    level of the real generator, the real scorer loader."""
+    try:
+        G, _ = T.load_guesser()
+        if G is not None:
+            enumerate_sets(G, [0, 1], cap=500, seconds=seconds, total_seconds=2 * seconds)
+        T.load_scorer()
+    except Exception:
+        pass
+
+
 # ---------------------------------------------------------------- the real trainer, in-process
 
 class Trained:
